@@ -520,11 +520,37 @@ def rule_time_budget(ctx):
     clock_fields |= {x[-1] for bi, t in le.calls() for a in t["args"] for x in walk(lsym.operand(a)) if isinstance(x, tuple) and x[0] == "field" and "limits" in x and x[-1] in ("white_time", "black_time", "white_increment", "black_increment")}
     ctx.check(clock_fields == {"white_time", "black_time", "white_increment", "black_increment"}, "limits_exceeded:every-clock-parameter-counts", "the clock budget applies when any of wtime, btime, winc, binc was given", le.where(0),
               bad_what="limits_exceeded looks at %s only: a `go` carrying just the other clock parameter(s) has no limit at all and is never answered" % sorted(clock_fields))
+    # the budget reaches the limits: the setter search() calls stores its argument in limits.time_management_timer
+    setters = [k for k in ix.bodies if k.startswith(LIMITS) and k.endswith("::time_management_timer")]
+    st_ok = False
+    for k in setters:
+        sb = ix.bodies[k]
+        ssym = mir.Sym(sb, ix)
+        for bi, i, stt in sb.stmts():
+            if fields_of(stt["lhs"])[-1:] == ("time_management_timer",) and mir.strip_copies(ssym.rvalue(stt["rv"]))[0] == "arg" and mir.strip_copies(ssym.rvalue(stt["rv"]))[1] != sb.local_name(1):
+                st_ok = True
+                ctx.functions.add(k)
+    direct = any(fields_of(stt["lhs"])[-1:] == ("time_management_timer",) for bi, i, stt in b.stmts())
+    ctx.check(st_ok or direct, "search:time-budget:stored", "the computed budget is stored in limits.time_management_timer (the setter keeps its argument)", b.where(0),
+              bad_what="the time budget computed in search() never reaches limits.time_management_timer (the setter drops its argument): a clocked `go` has no limit")
     ctx.check(reads, "limits_exceeded:reads-time-budget", "limits_exceeded compares the elapsed time with limits.time_management_timer", le.where(0), bad_what="limits_exceeded never reads the time-management budget")
 
 
 def rule_poll(ctx):
     c10.rule_poll(ctx)
+    # `go nodes N` ends because the node counter grows: every function of the tree walk counts the node it visits
+    ix = ctx.ix
+    for key in (C.ALPHA_BETA_START, C.ALPHA_BETA, C.QUIESCENCE):
+        b = ctx.body(key)
+        sym = ctx.sym(b)
+        incs = []
+        for bi, i, st in b.stmts():
+            if fields_of(st["lhs"])[-2:] == ("info", "nodes"):
+                v = mir.strip_copies(sym.rvalue(st["rv"]))
+                if v[0] == "bin" and v[1].startswith("Add") and v[3] == ("const", 1, "u64") and mir.strip_copies(v[2])[0] == "field" and mir.strip_copies(v[2])[-2:] == ("info", "nodes"):
+                    incs.append(bi)
+        ctx.check(len(incs) >= 1, "%s:counts-its-nodes" % key, "%s adds 1 to info.nodes for the nodes it visits (%d site(s))" % (C.short(key), len(incs)), b.where(incs[0] if incs else 0),
+                  bad_what="%s never increments info.nodes: a node budget (`go nodes N`) is not consumed by the nodes it visits, and the search overruns it or never ends" % C.short(key))
 
 
 def rule_depth_units(ctx):
